@@ -307,6 +307,7 @@ def run_lifecycle(ctx):
                 for t in range(iters):
                     un.reinit(StorageNode.get(id=node.id))          # once per main-loop iteration
                     un._updated = True
+                    un._io_happened = rng.random() < 0.5       # I/O happened during this pass: the idle hook then queues a tidy-up
                     un.update_idle()
                     item = un._queue.get(timeout=0.001)       # run what the idle update queued (tidy-up): the node is idle again
                     while item is not None:
@@ -322,6 +323,10 @@ def run_lifecycle(ctx):
                             f = ArchiveFile.create(acq=acq, name=f"x{t}", size_b=1, md5sum="0" * 32)
                             ArchiveFileCopy.create(file=f, node=node, has_file="Y", wants_file="Y")
                             maxN += 1
+                if len(batches) != iters:
+                    ctx.violation(f"lifecycle:skipped:k={k}", f"{iters} idle main-loop iterations on a node with auto_verify={k} handed out "
+                                  f"{len(batches)} batches: auto-verification was skipped in {iters - len(batches)} of them",
+                                  {"kind": "lifecycle", "N": N, "k": k, "iterations": iters, "batches": batches})
                 seen = set(i for b in batches for i in b)
                 # bound for the window actually run: with N' = the largest table size seen, ceil(N'/k)+1 iterations suffice
                 need = -(-maxN // k) + 1
